@@ -251,6 +251,13 @@ func genDigits(rng *rand.Rand, n int) string {
 // genName builds a dotted name; with probability it pads the total length to the
 // neighbourhood of 253.
 func genName(rng *rand.Rand) string {
+	if rng.IntN(40) == 0 {
+		// long in UTF-8, short in ACE (and the other way round)
+		if rng.IntN(2) == 0 {
+			return genCompactIDN(rng)
+		}
+		return genLongIDN(rng)
+	}
 	nl := pick(rng, 1, 2, 2, 3, 3, 4, 5, 8)
 	ls := make([]string, nl)
 	for i := range ls {
